@@ -139,6 +139,7 @@ func init() {
 			for _, s := range sites {
 				if !s.ok {
 					keys = append(keys, s.key)
+					fmt.Fprintf(os.Stderr, "SITE\t%s\t%s\t%s\n", s.key, s.pos, s.why)
 				} else {
 					ok++
 				}
